@@ -6,6 +6,8 @@ import (
 	"strconv"
 	"strings"
 
+	"go.uber.org/dig"
+
 	"verif/harness/pool"
 )
 
@@ -212,6 +214,10 @@ func (r *run) body(fs *fnState, args []reflect.Value) []reflect.Value {
 		r.advance(msDuration(beh.Dt))
 	}
 
+	if beh.Re != nil {
+		r.reenter(f, x, beh.Re)
+	}
+
 	failing := -1
 	if beh.K == "err" && len(fs.errIdx) > 0 {
 		m := len(fs.errIdx)
@@ -243,4 +249,32 @@ func (r *run) body(fs *fnState, args []reflect.Value) []reflect.Value {
 		r.event(fmt.Sprintf(`{"e":"exit","fn":%d,"x":%d,"r":"ok"}`, f, x))
 	}
 	return outs
+}
+
+// reenter performs the nested Invoke of a re-entrant behaviour.  Its outcome is recorded as an event; a
+// panic escaping the nested Invoke is caught here (it is an observation about the nested call, the outer
+// function then continues as scripted).
+func (r *run) reenter(f, x int, rc *ReCall) {
+	if rc.Scope < 0 || rc.Scope >= len(r.scopes) {
+		return
+	}
+	fs, ok := r.fns[rc.Fn]
+	if !ok || fs.unbuildable || fs.value == nil {
+		return
+	}
+	outcome := "ok"
+	func() {
+		defer func() {
+			if p := recover(); p != nil {
+				outcome = "panic"
+			}
+		}()
+		if err := r.scopes[rc.Scope].Invoke(fs.value); err != nil {
+			outcome = "err"
+			if dig.IsCycleDetected(err) {
+				outcome = "cycle"
+			}
+		}
+	}()
+	r.event(fmt.Sprintf(`{"e":"re","fn":%d,"x":%d,"inner":%d,"r":%q}`, f, x, rc.Fn, outcome))
 }
